@@ -1,8 +1,9 @@
------------------------------ MODULE FiltersVec -----------------------------
-(* C06, vector part: one filter F, one vector; the public calls              *)
+----------------------------- MODULE FiltersLife -----------------------------
+(* C06, vector part with the life cycle of the filter object (supersedes    *)
+(* FiltersVec.tla): one filter F, one vector; the public calls               *)
 (*    F.filter_<op>(v)        op in {rhs, sol, def, cor}                      *)
 (* are made twice in a row on the same vector:                               *)
-(*    init --Filter--> once --Filter--> twice                                *)
+(*    init --Live(clone|convert|move|none)--> live --Filter--> once --Filter--> twice *)
 (* TLC enumerates every initial state (family x size x ALL index sets x      *)
 (* chain orders x operation) and checks in every reached state               *)
 (*    ConstraintHolds, ComplementHolds, IdempotentHolds, ExactDomain         *)
@@ -16,15 +17,17 @@ CONSTANTS Family,  \* "unit" | "slip" | "mean" | "none" | "chain" | "seq" | "tup
           MinN, MaxN, \* vector sizes MinN..MaxN (in blocks)
           BS,      \* block size 1..3 (tuple/nest: block size of the blocked component)
           Depth,   \* chains / sequences of 1..Depth parts (sequences also 0)
-          Pal      \* value palette 1 | 2
+          Pal,     \* value palette 1 | 2
+          LCs      \* the life-cycle operations (subset of Filters!LifeCycleOps) the filter object goes through before it is applied
 
-VARIABLES ph,      \* "init" | "once" | "twice"
+VARIABLES ph,      \* "init" | "live" | "once" | "twice"
+          F0, lc,  \* the filter as built and the life-cycle operation that produces the filter F that is applied
           F, op,   \* the filter and the operation
           n,       \* number of blocks (tuple: sequence of block counts)
           den,     \* the dyadic grid: every vector entry is numerator / den
           v0,      \* the input vector (numerators)
           r1, r2   \* Apply results [v, ex, mx] after the first / second call
-vars == <<ph, F, op, n, den, v0, r1, r2>>
+vars == <<ph, F0, lc, F, op, n, den, v0, r1, r2>>
 
 \* ---- the filters of a family over nb blocks ----------------------------------------------------------
 Subsets(nb) == SUBSET (0..(nb - 1))
@@ -64,19 +67,25 @@ InputOf(f, nb, dn) ==
 Init ==
   /\ ph = "init"
   /\ \E nb \in MinN..MaxN : \E f \in FiltersOf(nb) : \E o \in Ops :
-       /\ F = f /\ op = o /\ n = SizesOf(f, nb)
+       /\ F = f /\ F0 = f /\ op = o /\ n = SizesOf(f, nb)
        /\ den = DivOf(f) * DivOf(f)
        /\ v0 = InputOf(f, nb, DivOf(f) * DivOf(f))
+  /\ lc \in {l \in LCs : Offered(F0, l)}
   /\ r1 = [v |-> <<>>, ex |-> TRUE, mx |-> 0] /\ r2 = [v |-> <<>>, ex |-> TRUE, mx |-> 0]
 
+\* the filter object that is applied is obtained from the built one by clone / convert / move (or is the built one)
+Live == ph = "init" /\ ph' = "live" /\ F' = LifeCycle(F0, lc) /\ UNCHANGED <<F0, lc, op, n, den, v0, r1, r2>>
 \* the public call F.filter_<op>(v)
-FilterOnce  == ph = "init" /\ ph' = "once"  /\ r1' = Apply(F, op, den, v0)   /\ UNCHANGED <<F, op, n, den, v0, r2>>
-FilterTwice == ph = "once" /\ ph' = "twice" /\ r2' = Apply(F, op, den, r1.v) /\ UNCHANGED <<F, op, n, den, v0, r1>>
-Next == FilterOnce \/ FilterTwice
+FilterOnce  == ph = "live" /\ ph' = "once"  /\ r1' = Apply(F, op, den, v0)   /\ UNCHANGED <<F0, lc, F, op, n, den, v0, r2>>
+FilterTwice == ph = "once" /\ ph' = "twice" /\ r2' = Apply(F, op, den, r1.v) /\ UNCHANGED <<F0, lc, F, op, n, den, v0, r1>>
+Next == Live \/ FilterOnce \/ FilterTwice
 Spec == Init /\ [][Next]_vars
 
 \* ---- the property, decided on the denotation ------------------------------------------------------------
 FilterOK == WellFormed(F, n)
+\* the law of the life-cycle operations: same value, same denotation (for every operation, not only the one called)
+LifeCycleLaw == /\ ph # "init" => F = F0
+                /\ ph = "live" /\ lc # "none" => \A o \in Ops : Apply(F, o, den, v0).v = Apply(F0, o, den, v0).v
 ExactDomain == r1.ex /\ r2.ex
 ConstraintHolds ==
   /\ ph \in {"once", "twice"} => Constraint(F, op, den, n, r1.v)
@@ -89,6 +98,6 @@ IdempotentHolds == ph = "twice" /\ IdemGuaranteed(F, n) => r2.v = r1.v
 \* ---- emission ------------------------------------------------------------------------------------------
 FloatSafe == Max(r1.mx, r2.mx) < (4194304 \div MaxDiv(F))          \* 2^22 / largest divisor
 Emit == ph = "twice" =>
-  PrintT(ToJson([fam |-> Family, f |-> F, op |-> op, n |-> n, den |-> den, v0 |-> v0, v1 |-> r1.v, v2 |-> r2.v,
+  PrintT(ToJson([fam |-> Family, lc |-> lc, f |-> F0, op |-> op, n |-> n, den |-> den, v0 |-> v0, v1 |-> r1.v, v2 |-> r2.v,
                  idem |-> IdemGuaranteed(F, n), f32 |-> FloatSafe, mx |-> Max(r1.mx, r2.mx)]))
 =============================================================================
